@@ -134,7 +134,15 @@ func H_C12_update_id() {
 	case 0:
 		err = e.db.Update(query.NewQuery("c").Where(query.Field("_id").Eq(poolIds[0])), map[string]interface{}{"_id": newId})
 	case 1:
-		err = e.db.UpdateById("c", poolIds[0], func(doc *d.Document) *d.Document { n := doc.Copy(); n.Set("_id", newId); return n })
+		nilResult := nd.Choice("updater.returns-nil", 2) == 1
+		err = e.db.UpdateById("c", poolIds[0], func(doc *d.Document) *d.Document {
+			if nilResult {
+				return nil // no document: must be an error (or a no-op), never a panic
+			}
+			n := doc.Copy()
+			n.Set("_id", newId)
+			return n
+		})
 	case 2:
 		err = e.db.UpdateFunc(query.NewQuery("c").Where(query.Field("_id").Eq(poolIds[0])), func(doc *d.Document) *d.Document { n := doc.Copy(); n.Set("_id", newId); return n })
 	}
